@@ -43,7 +43,8 @@ def outline_ast(headers, rows, tpl, bg_text):
     sc = {'id': str(nid + 2), 'tags': [], 'location': {'line': 4, 'column': 1}, 'keyword': 'Scenario Outline', 'name': tpl, 'description': '',
           'steps': steps, 'examples': [ex]}
     bg = {'id': '0b', 'location': {'line': 2, 'column': 1}, 'keyword': 'Background', 'name': '', 'description': '',
-          'steps': [{'id': '0', 'location': {'line': 3, 'column': 1}, 'keyword': 'Given ', 'keywordType': 'Context', 'text': bg_text}]}
+          'steps': [{'id': '0', 'location': {'line': 3, 'column': 1}, 'keyword': 'Given ', 'keywordType': 'Context', 'text': bg_text,
+                     'docString': {'location': {'line': 3, 'column': 1}, 'content': bg_text, 'delimiter': '"""', 'mediaType': bg_text}}]}
     bg['id'] = str(nid + 3)
     return {'feature': {'tags': [], 'location': {'line': 1, 'column': 1}, 'language': 'en', 'keyword': 'Feature', 'name': 'f', 'description': '',
                         'children': [{'background': bg}, {'scenario': sc}]}, 'comments': []}
@@ -97,13 +98,14 @@ def job_single(first, hlen, vlen):
     acc = Acc()
     last = None
     vals = [''.join(v) for n in range(vlen + 1) for v in itertools.product(VAL, repeat=n)]
-    for n in range(hlen):
-        for hw in itertools.product(HDR, repeat=n):
-            h = HDR[first] + ''.join(hw)
-            for tpl in templates(h):
-                for v in vals:
-                    run_case([h], [[v]], tpl, acc)
-            last = h
+    heads = [HDR[first] + ''.join(hw) for n in range(hlen) for hw in itertools.product(HDR, repeat=n)]
+    if first == 0:
+        heads.insert(0, '')           # the empty header cell: placeholder '<>'
+    for h in heads:
+        for tpl in templates(h) + ['x <%s> y' % h, '<%s>' % h * 3]:
+            for v in vals:
+                run_case([h], [[v]], tpl, acc)
+        last = h
     acc.sample({'headers': [last], 'rows': [[vals[-1]]], 'template': templates(last)[1]})
     return acc
 
